@@ -601,3 +601,17 @@ def rule_nocallback(ctx, sig, body, arg):
         ctx.note('R-callback', m.group(0), m.group(1))
         body = body[:m.start()] + m.group(1) + body[m.end():]
     return sig, body
+
+
+def rule_mapcollect(ctx, sig, body, arg):
+    """R-mapcollect: `let V: Vec<T> = X .iter() .map(|x| F(ARGS, x)) .collect();` -> explicit loop
+    `let mut V: Vec<T> = Vec::new(); for x in X.iter() { V.push(F(ARGS, x)); }`
+    (definition of map + collect into a Vec: same elements, same order); Verus has no support for iterator adapters with closures."""
+    pat = re.compile(r'let\s+(\w+)\s*:\s*(Vec<[^=]+?>)\s*=\s*(\w+)\s*\.iter\(\)\s*\.map\(\|(\w+)\|\s*([^;]+?)\)\s*\.collect\(\);', re.S)
+    m = pat.search(body)
+    if not m:
+        raise RuleError('no `let v: Vec<T> = x.iter().map(|e| ..).collect();`')
+    v, ty, x, e, expr = m.group(1), m.group(2).strip(), m.group(3), m.group(4), m.group(5).strip()
+    new = f'let mut {v}: {ty} = Vec::new();\n    for {e} in {x}.iter() {{\n        {v}.push({expr});\n    }}'
+    ctx.note('R-mapcollect', m.group(0), new)
+    return sig, body[:m.start()] + new + body[m.end():]
